@@ -15,7 +15,8 @@ LEVEL_TEXT = ("Every DeviceType member (read dynamically) is paired with every d
               "tables equal the reference (type 1: 20002/9957, type 2: 20003/10000). The domain is finite and enumerated.")
 RULE = ("all DeviceType members x the 4 device classes x 50 Hypothesis draws of the remaining constructor fields; all "
         "categories in both port tables; all pairs of types for code uniqueness. Non-trivial = every (type, class, "
-        "fields) triple and every table row; distinct by that tuple.")
+        "fields) triple and every table row; distinct by that tuple."
+        ' Also: every table re-checked after a bridge heard all nine device families on private ports (tables-after-traffic); API objects of both types constructed first and connected later must arrive on the control port of their own type, and must fail rather than fall back when only the other port is open (api-dials-own-port).')
 ASSUMPTIONS = ["reference tables: category<->class, protocol type -> (UDP, TCP) ports, and the 9 model codes, transcribed from the README / statement and pinned to the shipped captures for the type-1 codes"]
 
 CLASS_CATEGORY = {
